@@ -449,6 +449,10 @@ impl<'a> IExec<'a> {
             Some("non-positive-gas")
         } else if gas_bal_after_take < g {
             Some("gas-not-affordable")
+        } else if self.bal(gas_t, H_GAS).checked_add(g).is_none() || (!native && t_opt.map(|t| self.bal(t, H_ITS).checked_add(a).is_none()).unwrap_or(false)) {
+            // the gas service (or the custodian) already holds so much that the credit cannot be represented
+            ctx.count("probe.outbound_credit_would_overflow");
+            Some("credit-would-overflow")
         } else {
             None
         };
@@ -521,7 +525,7 @@ impl<'a> IExec<'a> {
         if let Some(tk) = canonical {
             let t = tk as usize % self.toks.len();
             let id = its_token_id(&its_canonical_salt(&self.cfg.chain_name, &saddr(&self.tok_addr[t])));
-            if self.toks[t].flaky && !contract_payer && self.m.registry.contains_key(&id) && self.m.trusted.contains(dchain) && g > 0 && self.bal(gas_t, ci) >= g {
+            if self.toks[t].flaky && !contract_payer && self.m.registry.contains_key(&id) && self.m.trusted.contains(dchain) && g > 0 && self.bal(gas_t, ci) >= g && self.bal(gas_t, H_GAS).checked_add(g).is_some() {
                 return self.do_deploy_remote_flaky(ctx, t, ci, chain, gas_t, g, abort);
             }
         }
@@ -608,6 +612,8 @@ impl<'a> IExec<'a> {
                     Some("non-positive-gas")
                 } else if self.bal(gas_t, ci) < g {
                     Some("gas-not-affordable")
+                } else if ci != H_GAS && self.bal(gas_t, H_GAS).checked_add(g).is_none() {
+                    Some("credit-would-overflow")
                 } else {
                     None
                 }
